@@ -64,7 +64,11 @@ NOTES = {
     'c04_5': '**missed at first**: C04 imported private keys as int/hex/bytes only; WIF forms through Key() and HDKey() were added',
     'c07_5': '**missed at first**: funded outputs never shared a transaction and requests were single; C07 got paired funding '
              'outputs and the request send_twice (a second request judged against the ledger after the first broadcast)',
-    'c08_5': '**missed at first**: multisig transactions spent outputs of one key only; C08 got multisig configurations funded on two keys',
+    'c08_5': '**missed at first**: multisig transactions spent outputs of one key only; C08 got multisig configurations funded on two keys. '
+             '**Missed again in the re-evaluation after round 8**: the repair becc7bc (an input keeps the unlocking script it was given) '
+             'made the reloaded bytes right although the reloaded inputs still carried the keys of other inputs; the reload comparison '
+             'of C08 now also covers address, keys, redeem script, number of signatures and the verify() verdict per input - which '
+             'exposed a genuine defect (segwit multisig transactions reload without signatures), repaired (19f62d8)',
     'c09_5': '**missed at first**: a callee emptying the list it was given; C09 keeps the path list, compares it after the call and '
              'asks the same list again',
     'c10_5': '**missed at first**: r starting with byte 0x30 makes the 64-byte r||s form of a dictionary export look like DER; C02 and '
